@@ -103,7 +103,9 @@ func childEnv(extra ...string) []string {
 		}
 		out = append(out, e)
 	}
-	out = append(out, "GODEBUG=cryptocustomrand=0", "GOTRACEBACK=all")
+	// GC and asynchronous preemption are switched off inside a run (RunOne collects between runs): both preempt
+	// goroutines at moments that depend on real time, which reorders runnable goroutines inside one scheduler step
+	out = append(out, "GODEBUG=cryptocustomrand=0,asyncpreemptoff=1", "GOGC=off", "GOTRACEBACK=all")
 	return append(out, extra...)
 }
 
@@ -136,11 +138,11 @@ func (c *runnerCfg) spawn(testName string, wall time.Duration, env []string) ([]
 }
 
 type worldOutcome struct {
-	agg      *Agg
-	failing  []*RunResult
-	crashes  []string // descriptions
-	trouble  []string
-	wall     time.Duration
+	agg     *Agg
+	failing []*RunResult
+	crashes []string // descriptions
+	trouble []string
+	wall    time.Duration
 }
 
 func (c *runnerCfg) runWorld(w *World, budget time.Duration, tmp string, gomaxprocs int, maxRuns int, keepHashes bool, seedBase uint64) *worldOutcome {
